@@ -224,16 +224,19 @@ def semver(a: int, b: int, c: int) -> bool:
     return from_semver_str(to_semver_str((a, b, c))) == (a, b, c)
 
 
-_SCHEMAS = None
+_SCHEMAS = {}
 
 
 def _installed():
-    global _SCHEMAS
-    if _SCHEMAS is None:
-        from metador_core.plugins import schemas
+    """The plugin group selected by SEL["grp"] (schema / harvester / packer) and its plugin names."""
+    g = SEL.get("grp", "schema")
+    if g not in _SCHEMAS:
+        import metador_core.plugins as PL
 
-        _SCHEMAS = (schemas, sorted({r.name for r in schemas.keys()}))
-    return _SCHEMAS
+        grp = {"schema": "schemas", "harvester": "harvesters", "packer": "packers"}[g]
+        grp = getattr(PL, grp)
+        _SCHEMAS[g] = (grp, sorted({r.name for r in grp.keys()}))
+    return _SCHEMAS[g]
 
 
 def marker(versioned: bool, idx: int) -> bool:
@@ -268,6 +271,10 @@ def _try_subclass(schemas, name, versioned):
             cls = schemas.get(name, ref.version) if versioned else schemas.get(name)
         elif route == "getitem":  # group[name] / group[(name, version)]
             cls = schemas[(name, ref.version)] if versioned else schemas[name]
+        elif route == "handle_get":  # a version-less handle used as key does not state a version either
+            cls = schemas.get(schemas[name], ref.version) if versioned else schemas.get(schemas[name])
+        elif route == "handle_getitem":
+            cls = schemas[(name, ref.version)] if versioned else schemas[schemas[name]]
         else:  # group[ref] (a reference always states a version) vs. a bare name
             cls = schemas[ref] if versioned else schemas.get(name, None)
         try:
